@@ -228,3 +228,4 @@ mutant("c14-laguerre-base", "C14", "R14.5/special::polynomial::laguerre_zeros/ba
 mutant("c14-hermite-deflator", "C14", "R14.5/special::polynomial::hermite_zeros/deflate-then-polish", (SP, "        deflator = quotient;\n", ""))
 mutant("c14-hermite-polish", "C14", "R14.5/special::polynomial::hermite_zeros/deflate-then-polish", (SP, "let zero = newton_polynomial(zero, &poly, tol, n_max)?;", "let zero = newton_polynomial(zero, &deflator, tol, n_max)?;"))
 benign("c14-refactor", "C14", (PM, "let division = -self.coefficients[0] / self.coefficients[1];", "let division = -(self.coefficients[0] / self.coefficients[1]);"))
+benign("c14-root-order", "C14", (PM, "        roots.push_front(guess);\n", "        roots.push_back(guess);\n"))
